@@ -65,3 +65,32 @@ Proof.
   assert (0 <= T / (60 * u) / 60) by (apply Z.div_pos; lia).
   repeat split; try lia.
 Qed.
+
+(* ---------- Bowring's closed formula is exact on the ellipsoid ---------- *)
+(* A point of the meridian ellipse is (p, z) = (a cos u, b sin u), u its parametric latitude; its geodetic latitude phi
+   satisfies tan phi = (a / b) tan u.  Ellipsoid::xyz2blh computes tan u = (a/b) z/p -- exact for h = 0 -- and then
+   atan2 (z + e'^2 b sin^3 u, p - e^2 a cos^3 u); the two arguments are in the ratio (a sin u) : (b cos u), i.e. the
+   formula returns phi exactly for every point of the ellipsoid (the truncation error appears only with the height). *)
+From Coq Require Import Nsatz.
+Local Open Scope R_scope.
+Theorem bowring_exact_on_the_ellipsoid (a b u : R) : 0 < a -> 0 < b ->
+  let e2 := (a * a - b * b) / (a * a) in
+  let e22 := (a * a - b * b) / (b * b) in
+  let p := a * cos u in let z := b * sin u in
+  (z + e22 * b * (sin u * sin u) * sin u) * (b * cos u) = (p - e2 * a * (cos u * cos u) * cos u) * (a * sin u).
+Proof.
+  intros Ha Hb. cbv zeta.
+  pose proof (sin2_cos2 u) as T. unfold Rsqr in T.
+  set (s := sin u) in *. set (c := cos u) in *.
+  assert (Ea : a * a <> 0) by nra. assert (Eb : b * b <> 0) by nra.
+  field_simplify_eq; [|split; lra].
+  apply Rminus_diag_uniq.
+  replace (- b ^ 2 * s ^ 3 * c + b ^ 2 * s * c + s ^ 3 * a ^ 2 * c - (b ^ 2 * s * c ^ 3 - s * a ^ 2 * c ^ 3 + s * a ^ 2 * c))
+    with (s * c * (a ^ 2 - b ^ 2) * (s * s + c * c - 1)) by ring.
+  rewrite T. ring.
+Qed.
+
+(* the parametric latitude the code starts from is the true one when h = 0 *)
+Theorem bowring_parametric_latitude_exact (a b u : R) : 0 < a -> 0 < b -> cos u <> 0 ->
+  a / b * (b * sin u) / (a * cos u) = tan u.
+Proof. intros Ha Hb Hc. unfold tan. field. repeat split; lra. Qed.
